@@ -458,13 +458,19 @@ class LazyFn(LazyObject[_T]):
     except TypeError:
       return hash(self.id)
 
+  def _arg_types(self):
+    return [type(x) for x in self.args] + [type(v) for _, v in self.kwargs]
+
   def __eq__(self, other: Self):
+    # 1, True and 1.0 are equal and hash alike, yet f(1) is not f(True): the
+    # arguments also have to be of the same types, as with lru_cache(typed=True).
     return isinstance(other, LazyFn) and (
         self.id == other.id
         or (
             self.value == other.value
             and self.args == other.args
             and self.kwargs == other.kwargs
+            and self._arg_types() == other._arg_types()
         )
     )
 
